@@ -87,9 +87,13 @@ func typeByName(n string) reflect.Type {
 		return typScope
 	case "prov":
 		return typProvider
+	case "V":
+		return typVoid // functions without result are registered under struct{}
 	}
 	return nil
 }
+
+var typVoid = reflect.TypeOf(struct{}{})
 
 func nameOfType(t reflect.Type) string {
 	for i, s := range typS {
@@ -225,6 +229,10 @@ func outIdent(r *RegCfg, o int) (reflect.Type, any, bool) {
 		return typS[r.Slot2], "k", o == 2
 	case "outkg":
 		return typS[r.Slot], nil, o == 1
+	case "init", "initerr":
+		if n := name(); n != nil {
+			return typVoid, n, o == 1 // a named initialization function is the keyed service (struct{}, name)
+		}
 	}
 	return nil, nil, false
 }
@@ -425,6 +433,13 @@ type opCtx struct {
 	parent string // create: the parent scope ("root" for the provider)
 }
 
+func (c *opCtx) scopeOr(d string) string {
+	if c == nil {
+		return d
+	}
+	return c.scope
+}
+
 // run is the state of one scenario.
 type runState struct {
 	mu       sync.Mutex
@@ -450,6 +465,8 @@ type runState struct {
 	pendingNames map[godi.Scope]string
 	orphans      []string // context state of scope objects whose creation failed
 	buildCancel  context.CancelFunc // set while a Build started with a cancellable context is in progress
+	closeWaits   bool               // instance Close waits for overlapping resolutions on its scope (free-running programs)
+	instScope    map[int]string     // instance id -> scope it was constructed for
 	creating     map[int64]string
 	instReg  map[int]string
 	waiters  map[godi.Scope]chan struct{}
@@ -631,6 +648,7 @@ func recCtor(fn string, ign bool, n int, args []argRec) (ids []int, reg string, 
 			R.nextID++
 			ids = append(ids, R.nextID)
 			R.instReg[R.nextID] = reg
+			R.instScope[R.nextID] = curOpLocked().scopeOr("-")
 		}
 	}
 	outs := ids
@@ -744,6 +762,9 @@ func recClose(id int, run int) error {
 	if R.gate != nil {
 		R.gate("U_close", id)
 	}
+	if R.closeWaits {
+		waitForResolutions(R, id)
+	}
 	R.mu.Lock()
 	bad := R.closeErr[R.instReg[id]]
 	quiet := R.quiet
@@ -759,6 +780,44 @@ func recClose(id int, run int) error {
 		return errCloseFault
 	}
 	return nil
+}
+
+// waitForResolutions is what a disposable like a worker pool does in Close: it waits for the goroutines that are
+// still using the scope.  It only waits when called from a closing call (Close / cancel / provider Close / a
+// context watcher), not from a resolution that discards its own result.  In the container, a resolution that
+// overlaps Close returns promptly (it is refused); if one never returns while Close waits here, the two have
+// deadlocked - reported like any call that does not terminate.
+func waitForResolutions(R *runState, id int) {
+	me := goid()
+	R.cmu.Lock()
+	mine := R.curs[me]
+	R.cmu.Unlock()
+	if mine != nil && (mine.op == "resolve" || mine.op == "group" || mine.op == "create") {
+		return
+	}
+	R.mu.Lock()
+	scope := R.instScope[id]
+	R.mu.Unlock()
+	deadline := time.Now().Add(8 * time.Second)
+	for {
+		busy := false
+		R.cmu.Lock()
+		for g, c := range R.curs {
+			if g != me && c != nil && (c.op == "resolve" || c.op == "group") && c.scope == scope {
+				busy = true
+			}
+		}
+		R.cmu.Unlock()
+		if !busy {
+			return
+		}
+		if time.Now().After(deadline) {
+			emit(M{"ev": "hang", "th": procName(), "op": "close", "why": "an instance's Close waited for a resolution on its scope that never returned"})
+			flushOut()
+			os.Exit(3)
+		}
+		time.Sleep(200 * time.Microsecond)
+	}
 }
 
 // ---------------------------------------------------------------- error classes
@@ -912,6 +971,9 @@ func resOf(v any) M {
 	case context.Context:
 		a := argCtx(x)
 		return M{"k": "ctx", "ids": []int{}, "s": a.S}
+	}
+	if _, isVoid := v.(struct{}); isVoid {
+		return M{"k": "void", "ids": []int{}, "s": "-"}
 	}
 	id := idOf(v)
 	if id > 0 {
@@ -1304,7 +1366,7 @@ func newRun(cfg *Cfg) *runState {
 	live.reset()
 	r := &runState{cfg: cfg, fnReg: map[string]string{}, regByID: map[string]*RegCfg{}, inv: map[string]int{},
 		closeErr: map[string]bool{}, scopes: map[string]godi.Scope{}, names: map[godi.Scope]string{},
-		cancels: map[string]context.CancelFunc{}, markers: map[string]string{}, deadlines: map[string]time.Time{}, instReg: map[int]string{},
+		cancels: map[string]context.CancelFunc{}, markers: map[string]string{}, deadlines: map[string]time.Time{}, instScope: map[int]string{}, instReg: map[int]string{},
 		waiters: map[godi.Scope]chan struct{}{}, curs: map[int64]*opCtx{}, pendingNames: map[godi.Scope]string{},
 		creating: map[int64]string{}}
 	for i := range cfg.Regs {
